@@ -33,6 +33,7 @@ class Engine:
         s.inputs = []  # input var idx, in creation order
         s.ufs = {}
         s.zdag = False
+        s.abs_gen = False  # |x| of a sign-unknown real x: fork on the sign (default) or introduce a generator g >= 0, g^2 = x^2
         s.path_reset()
 
     def path_reset(s):
@@ -46,6 +47,7 @@ class Engine:
         s.gen_n = 0
         s.sqrt_memo = {}
         s.uf_memo = {}
+        s.gen_args = {}  # generator var idx -> (function name, argument Sym)
         s.domain = []  # (kind, z3 condition that must hold for the operation to be defined)
         s.forks = 0
         s.trace = None
@@ -537,6 +539,8 @@ class Sym:
             sg = E.sign_of_rat(a.re)
             if sg is not None:
                 return a if sg >= 0 else -a
+            if E.abs_gen:
+                return _abs_gen(a)
             return a if bool(a >= 0) else -a
         return (a * a.conjugate()).real.sqrt()
 
@@ -891,6 +895,42 @@ def _msqrt(p):
     return Poly({tuple((v, e // 2) for v, e in m): Fraction(n, d)})
 
 
+def _abs_gen_poly(p):
+    """|p| for a polynomial p of unknown sign as a generator g with g >= 0 and g^2 == p^2"""
+    sg = E.sign_of_poly(p)
+    if sg is not None:
+        return Sym(Rat(p if sg >= 0 else -p))
+    key = ("abs", hash(p))
+    hit = E.sqrt_memo.get(key)
+    if hit is not None and hit[0] == p:
+        return hit[1]
+    neg = E.sqrt_memo.get(("abs", hash(-p)))
+    if neg is not None and neg[0] == -p:
+        return neg[1]
+    gi = E.new_gen("abs", abs(float(E.peval(p))))
+    g = E.zv(gi)
+    pz = E.p2z(p)
+    E.defs.append(z3.And(g >= 0, g * g == pz * pz))
+    terms.RULES[gi] = p * p
+    E.nonneg.add(gi)
+    out = Sym(Rat(Poly.varidx(gi)))
+    E.sqrt_memo[key] = (p, out)
+    return out
+
+
+def _abs_gen(a):
+    r = a.re
+    num = _abs_gen_poly(r.n)
+    if not r.d:
+        return num
+    den = C(1)
+    for f, k in r.d.items():
+        fa = _abs_gen_poly(f) if k % 2 else Sym(Rat(f))
+        for _ in range(k if k % 2 else k // 2):
+            den = den * (fa if k % 2 else Sym(Rat(f * f)))
+    return num / den
+
+
 def _psqrt(p):
     """exact square root of a polynomial that is a perfect square (q with q*q == p), else None"""
     q = _msqrt(p)
@@ -958,4 +998,5 @@ def uf_apply(name, x):
         E.defs.append(E.zv(gi) > 0)
     out = Sym(Rat(Poly.varidx(gi)))
     E.uf_memo[key] = (x.re, out)
+    E.gen_args[gi] = (name, x)
     return out
